@@ -15,6 +15,9 @@ import (
 	"encoding/binary"
 	"encoding/hex"
 	"fmt"
+	"runtime"
+	"runtime/debug"
+	"strings"
 	"testing"
 	"unsafe"
 
@@ -365,6 +368,7 @@ type c06Input struct {
 	Entry string `json:"entry"` // unmarshal/slice | unmarshal/btree | import-set/slice | ...
 	Seed  string `json:"seed"`
 	Mut   string `json:"mutation"`
+	Class string `json:"class"` // first structural violation of the input (c06Classify)
 	Len   int    `json:"len"`
 	Hex   string `json:"hex,omitempty"`
 }
@@ -388,21 +392,88 @@ func c06Target(coll string) *Bitmap {
 	return t
 }
 
-// c06Run feeds one input to one entry point. Returns false if a failure was recorded.
+// c06Guard runs fn with faults at non-nil addresses turned into panics
+// (debug.SetPanicOnFault): a read past the guard page is then a recoverable
+// panic of this goroutine, classified as "over-read", instead of killing the
+// worker. Other panics are classified as "panic".
+func c06Guard(r *vk.Run, sig func(cls string) string, id string, wit func() interface{}, fn func()) (panicked bool) {
+	old := debug.SetPanicOnFault(true)
+	defer debug.SetPanicOnFault(old)
+	defer func() {
+		if e := recover(); e != nil {
+			panicked = true
+			cls := "panic"
+			if re, ok := e.(runtime.Error); ok && strings.Contains(re.Error(), "fault address") {
+				cls = "over-read"
+			}
+			st := string(debug.Stack())
+			if i := strings.Index(st, "panic("); i > 0 {
+				st = st[i:]
+			}
+			if len(st) > 1400 {
+				st = st[:1400]
+			}
+			r.Fail(sig(cls), id, fmt.Sprintf("%s: %v\n%s", cls, e, st), wit())
+		}
+	}()
+	fn()
+	return false
+}
+
+// c06Spy is a slice container collection that records the size hint the
+// decoder derives from the input instead of honouring it: an input whose
+// container count overflows the decoder's 32-bit length check would otherwise
+// make the process allocate tens of gigabytes (observed: ResetN(0x80000000)
+// from a 34-byte input, worker stuck until the watchdog).
+type c06Spy struct {
+	*sliceContainers
+	hint int
+}
+
+func (s *c06Spy) ResetN(n int) {
+	if n > s.hint {
+		s.hint = n
+	}
+	if n > 1<<16 {
+		n = 1 << 16
+	}
+	s.sliceContainers.ResetN(n)
+}
+
+// c06Run feeds one input to one entry point.
 func c06Run(r *vk.Run, id, entry string, s *c06Seed, m *c06Mut, arena *vArena) {
-	sigBase := entry[:indexByte(entry, '/')] + ":" + s.Name + ":" + m.Desc
-	wit := func() interface{} { return c06Wit(entry, s, m) }
+	ep := entry[:indexByte(entry, '/')]
+	epKind := ep
+	if ep != "unmarshal" {
+		epKind = "import"
+	}
+	class := c06Classify(m.data)
+	sigOf := func(failure string) string { return epKind + ":" + failure + ":" + class }
+	wit := func() interface{} { w := c06Wit(entry, s, m); w.Class = class; return w }
 	coll := entry[indexByte(entry, '/')+1:]
-	isImport := entry[0] == 'i'
-	clear := entry[:indexByte(entry, '/')] == "import-clear"
-	r.Cover("entry:" + entry[:indexByte(entry, '/')] + ":" + s.Name)
+	isImport := ep != "unmarshal"
+	clear := ep == "import-clear"
+	r.Cover("entry:" + ep + ":" + s.Name)
+	r.Cover("class:" + epKind + ":" + class)
 	clean := true
 	stage := func(buf []byte, name string) {
 		maxVals := 1 << 22
 		if !isImport {
 			b := vNewColl(coll)
+			var spy *c06Spy
+			if class == "pilosa/count-overflows-uint32" {
+				// never hand this class to a real collection (see c06Spy)
+				spy = &c06Spy{sliceContainers: newSliceContainers()}
+				b = &Bitmap{Containers: spy}
+			}
 			var err error
-			if r.Guard(func() string { return sigBase + ":panic" }, id, wit, func() { err = b.UnmarshalBinary(buf) }) {
+			panicked := c06Guard(r, func(c string) string { return sigOf(c) }, id, wit, func() { err = b.UnmarshalBinary(buf) })
+			if spy != nil && spy.hint > len(buf)/12+1 {
+				clean = false
+				r.Eval(1)
+				r.Fail(sigOf("allocates-for-count"), id, fmt.Sprintf("%s: UnmarshalBinary of a %d-byte input sizes its container collection for %d containers (%d bytes of slice headers) before noticing the input is short", name, len(buf), spy.hint, 16*spy.hint), wit())
+			}
+			if panicked {
 				clean = false
 				return
 			}
@@ -415,16 +486,17 @@ func c06Run(r *vk.Run, id, entry string, s *c06Seed, m *c06Mut, arena *vArena) {
 			r.Eval(1)
 			if msg := c06PastEnd(b, buf); msg != "" {
 				clean = false
-				r.Fail(sigBase+":accepted-maps-past-end", id, name+": UnmarshalBinary accepted the input, but "+msg, wit())
+				r.Fail(sigOf("accepted-maps-past-end"), id, name+": UnmarshalBinary accepted the input, but "+msg, wit())
 				return
 			}
-			if r.Guard(func() string { return sigBase + ":read-after-accept-panic" }, id, wit, func() {
+			if c06Guard(r, func(c string) string { return sigOf("read-after-accept-" + c) }, id, wit, func() {
 				got := vSliceBounded(b, maxVals)
 				b.Count()
 				r.Eval(1)
 				if len(got) > maxVals {
-					clean = false
-					r.Fail(sigBase+":read-unbounded", id, fmt.Sprintf("%s: iterating the accepted bitmap yields more than %d values (does not terminate)", name, maxVals), wit())
+					// garbage runs can describe billions of (repeated) values; that is slow, not
+					// provably endless, and the statement does not bound it: counted, not asserted
+					r.Cover("outcome:accepted-iteration-cut-at-4M")
 				}
 			}) {
 				clean = false
@@ -434,25 +506,24 @@ func c06Run(r *vk.Run, id, entry string, s *c06Seed, m *c06Mut, arena *vArena) {
 		t := c06Target(coll)
 		before := t.Slice()
 		var err error
-		if r.Guard(func() string { return sigBase + ":panic" }, id, wit, func() { _, _, err = t.ImportRoaringBits(buf, clear, false, 2) }) {
+		if c06Guard(r, func(c string) string { return sigOf(c) }, id, wit, func() { _, _, err = t.ImportRoaringBits(buf, clear, false, 2) }) {
 			clean = false
 			return
 		}
 		r.Eval(1)
-		if r.Guard(func() string { return sigBase + ":read-after-import-panic" }, id, wit, func() {
+		if c06Guard(r, func(c string) string { return sigOf("read-after-import-" + c) }, id, wit, func() {
 			after := vSliceBounded(t, maxVals)
 			r.Eval(1)
 			if err != nil {
 				r.Cover("outcome:rejected")
 				if !vk.EqualU64(after, before) {
 					clean = false
-					r.Fail(sigBase+":rejected-but-changed", id, fmt.Sprintf("%s: ImportRoaringBits returned error %q but the target changed: %s; before %s after %s", name, err.Error(), vk.DiffU64(after, before), vk.Brief(before), vk.Brief(after)), wit())
+					r.Fail(sigOf("rejected-but-changed"), id, fmt.Sprintf("%s: ImportRoaringBits returned error %q but the target changed: %s; before %s after %s", name, err.Error(), vk.DiffU64(after, before), vk.Brief(before), vk.Brief(after)), wit())
 				}
 			} else {
 				r.Cover("outcome:accepted")
 				if len(after) > maxVals {
-					clean = false
-					r.Fail(sigBase+":read-unbounded", id, name+": iterating the target after an accepted import does not terminate", wit())
+					r.Cover("outcome:accepted-iteration-cut-at-4M")
 				}
 			}
 		}) {
@@ -461,7 +532,7 @@ func c06Run(r *vk.Run, id, entry string, s *c06Seed, m *c06Mut, arena *vArena) {
 	}
 	stage(c06Slack(m.data), "heap")
 	if clean {
-		r.InFlightDetail(id, map[string]interface{}{"sig": sigBase + ":over-read", "input": wit()})
+		r.InFlightDetail(id, map[string]interface{}{"sig": sigOf("crash"), "input": wit()})
 		stage(arena.guardCopy(m.data), "guard-page")
 	}
 }
